@@ -181,7 +181,8 @@ def check(ctx):
                 lits = ",".join(sorted(set(l for l in (lit_text(x) for x in walk(cond["expr"] if cond.get("k") == "letcond" else cond)) if l is not None)))
                 closed = (cond.get("k") == "macro" and cond["name"] == "matches") or bool(re.search(r'starts_with\("types\."\)', ctext))
                 rets = [x for x in walk_block(e["then"]) if x.get("k") == "return" and x.get("expr") is not None]
-                tail = [s["e"] for s in e["then"] if s.get("k") == "expr" and not s.get("semi")]
+                last = e["then"][-1] if e["then"] else None
+                tail = [last["e"]] if last is not None and last.get("k") == "expr" and not last.get("semi") and not (last["e"].get("k") == "if" and last["e"].get("else") is None) else []
                 vals = [x["expr"] for x in rets] + tail
                 # `else` arm of the final if (custom type) is handled below
                 for v in vals:
@@ -203,6 +204,9 @@ def check(ctx):
                             else:
                                 r2.bad(V(r2.id, "add_types_prefix", "unchanged-under-open-guard:%s" % lits,
                                          "under `%s` the type text is returned unchanged although it may contain custom type names" % ctext))
+                    elif v.get("k") != "macro" or v["name"] != "format":
+                        r2.bad(V(r2.id, "add_types_prefix", "unrecognised-branch:%s:%s" % (lits, t[:40]),
+                                 "under `%s` the result `%s` is neither the unchanged text nor a re-assembly of recursively qualified components" % (ctext, t)))
                     elif v.get("k") == "macro" and v["name"] == "format":
                         args = v.get("args", [])[1:]
                         for a in args:
@@ -216,7 +220,43 @@ def check(ctx):
                                          "under `%s` the component `%s` is re-assembled without being qualified recursively" % (ctext, at)))
         if n_br < 5:
             r2.bad(V(r2.id, "add_types_prefix", "shape:%d" % n_br, "unexpected structure of add_types_prefix (%d branches)" % n_br))
-    r2.require_floor(5, "qualification branches")
+    # ... and it is applied at every rendered-type hole of the modules that reach declarations through `types.` (commands.ts, events.ts),
+    # and at none inside types.ts (where the declarations are in scope unqualified)
+    from c01 import Producers, TYPE_RENDER, split_hole
+    from tpltypes import Typing
+    typing = Typing(S, P, T)
+    prod = Producers(S, None)
+    n_holes = 0
+    for name in sorted(T.rendered_names()):
+        outside = bool(re.search(r"/(commands|events)\.ts\.tera$", name))
+        inside = bool(re.search(r"/types\.ts\.tera$|/partials/(schema|param_schemas|type_aliases)\.ts\.tera$", name))
+        if not (outside or inside):
+            continue
+        seen = set()
+        for p_ in T.paths(name) or []:
+            if not consistent(p_.conds):
+                continue
+            for it in p_.holes():
+                h = it[1]
+                if h in seen:
+                    continue
+                seen.add(h)
+                base, filters, _ = split_hole(h)
+                m = re.match(r"^\(([^()]*)\)(.*)$", base)
+                if m:
+                    base = m.group(1) + m.group(2)
+                fo = typing.field_of(base)
+                if not fo or fo[0] == "ambiguous" or prod.field(*fo) != TYPE_RENDER:
+                    continue
+                n_holes += 1
+                q = "add_types_prefix" in filters
+                if outside and not q:
+                    r2.bad(V(r2.id, name, "unqualified-type-hole:%s" % h, "`{{ %s }}` (a rendered type, %s.%s) is interpolated in %s without add_types_prefix: custom type names there are not in scope" % (h, fo[0], fo[1], name)))
+                elif inside and q:
+                    r2.bad(V(r2.id, name, "qualified-inside-types:%s" % h, "`{{ %s }}` is namespace-qualified inside the types module itself, where `types` is not defined" % h))
+                else:
+                    r2.ok("%s: {{ %s }} %s" % (name, h, "qualified" if q else "unqualified (types module)"))
+    r2.require_floor(12, "qualification branches and type holes")
     rules.append(r2)
 
     # ---------------------------------------------------------------- D3
@@ -276,6 +316,26 @@ def check(ctx):
             r3.bad(V(r3.id, name, "index-template:%s:%s" % ([tx(l["container"]) for l in loops], conds), "index template loops %s under %s" % ([tx(l["container"]) for l in loops], conds)))
     r3.require_floor(5, "index facts")
     rules.append(r3)
+
+    # ---------------------------------------------------------------- D4 / D5 (rules shared with C07-D3 and C12-D6)
+    r4 = Rule("C02-D4-declared-set-closed", "D4",
+              "every name inserted into the declared set is the output of the transitive closure over field types (rule shared with C07-D3)",
+              "a payload or field type that is referenced but not declared does not resolve inside types.ts")
+    from c07 import check_closure_before_insert
+    check_closure_before_insert(P, r4)
+    for v in r4.violations:
+        v.rule = r4.id
+    r4.require_floor(2, "insertions into the declared set")
+    rules.append(r4)
+    r5 = Rule("C02-D5-one-export-per-event", "D5",
+              "listeners are made unique by event name and by generated identifier (rule shared with C12-D6)",
+              "two listeners with the same identifier declare the same exported name twice in events.ts")
+    from c12 import check_event_uniqueness
+    check_event_uniqueness(P, r5)
+    for v in r5.violations:
+        v.rule = r5.id
+    r5.require_floor(2, "uniqueness steps")
+    rules.append(r5)
 
     # ---------------------------------------------------------------- D6
     r6 = Rule("C02-D6-template-variable-typing", "D6",
